@@ -103,6 +103,11 @@ func main() {
 			variant, _ = strconv.Atoi(os.Args[5])
 		}
 		os.Exit(props.ReplicaMain(os.Args[2], os.Args[3], only, variant))
+	case "replica-upgrade":
+		if len(os.Args) < 3 {
+			usage()
+		}
+		os.Exit(props.ReplicaUpgradeMain(os.Args[2]))
 	case "list":
 		var ids []string
 		for id := range props.Registry {
